@@ -157,6 +157,17 @@ CHECKS['C20'] = dict(
     note='trusted: TLC, Bridge.tla, Sym.tla; RDKit is part of the system under test. Allenes, non-carbon stereocentres: outside the claim',
     technique='TLC validation of recorded projections of both toolkits objects (field comparison, canonical strings, both round trips)',
     design='5/C20')
+CHECKS['C15'] = dict(
+    text='Reactions assembled from corpus molecules, salts and radicals (0-3 molecules per role, empty roles): for every role-internal order TLC '
+         'rebuilds the signature text from the molecules own texts (code-point sorting, radical and fragment indices of the CXSMILES block) and '
+         'requires text, == and hash not to move; smiles(format(r,"m")) and smiles(str(r)) must give back the same numbered molecules in the '
+         'same roles; for reactions made by edits with known ground truth (bond order / make / break, charge, radical, leaving and joining '
+         'atoms, reagents, vanished products) TLC computes the superposition of both sides and its centre, checks the ground truth against '
+         'its own application of the edits, tallies the tokens of the condensed-graph string against the graph and compares string and centre '
+         'of a consistently renumbered, reordered copy; sides that disagree on an element or isotope must be refused.',
+    note='trusted: TLC, Reaction.tla, Cx.tla; molecules that do not survive their own text are outside the read-back clause (C02 decides those)',
+    technique='TLC validation of recorded reaction signatures, read-backs and condensed graphs against Reaction.tla (text, superposition, centre)',
+    design='5/C15')
 PENDING = {}
 
 
